@@ -22,7 +22,7 @@ RULE = ('shapes: every (m,n) up to the tier bound (all parity pairs, square and 
 ASSUMPTIONS = ['scipy.fft.fft2/ifft2 compute the DFT sums (contract = hypothesis of the theorems, proved from primitive roots)',
                'fftshift/ifftshift are the rotations by +-(n//2) (checked against the model index maps every run)',
                'np.sinc, np.exp, np.cos, np.hypot, np.arctan2 (modelled with Float.sin/exp/cos/sqrt/atan2)',
-               f'float64 comparisons at {TOL} relative to max(1, |expected|_inf)']
+               f'float64 comparisons at {TOL} relative to max(1, |expected|_inf); float32 inputs at 2e-4']
 
 
 def _impl():
@@ -440,6 +440,23 @@ def correspondence(ctx):
             if not _close(route, direct):
                 ctx.disagree('conv.model_route', desc, _err(route, direct), 'model pipeline vs model direct sum')
         ask(f'conv {m} {n} {_fl(o)} {_fl(h)}', chk)
+        if (m + n) % 3 == 0:
+            # single precision: same laws at the float32 tolerance of DESIGN 2.3, and the dtype is kept
+            o32, h32 = o.astype(np.float32), h.astype(np.float32)
+
+            def chk32(row, o32=o32, h32=h32, shape=shape, desc=desc, nt=nt, tag=tag):
+                direct, _ = (x.reshape(shape) for x in _parse(row, o32.size, o32.size))
+                d32 = dict(desc, dtype='float32')
+                ctx.case('conv', d32, nontrivial=nt, tag=tag + '/f32')
+                try:
+                    got = cv.conv(o32, h32)
+                except Exception as ex:
+                    ctx.disagree('conv', d32, f'raised {type(ex).__name__}: {ex}', 'value')
+                    return
+                if got.dtype != np.float32 or not _close(got.astype(float), direct, 2e-4):
+                    ctx.disagree('conv', d32, f'{_err(got.astype(float), direct)}, dtype {got.dtype}',
+                                 'centred circular convolution (direct double sum), float32')
+            ask(f'conv {m} {n} {_fl(o32)} {_fl(h32)}', chk32)
         base = {'o': _l(o), 'h': _l(h)}
         _check(ctx, 'conv_comm', base, desc, nt, tag)
         _check(ctx, 'conv_sum', base, desc, nt, tag)
